@@ -7,6 +7,9 @@ import os, sys, json, subprocess, shutil, re, time
 SRC = "/tmp/mut_out"
 OUT = "/verif/seeded"
 WT = "/tmp/seed_eval_wt"
+WORKER = os.environ.get("SEED_WORKER", "")
+if WORKER:
+    WT = "/tmp/seed_eval_wt_" + WORKER
 
 def sh(cmd, cwd=None, timeout=1800):
     r = subprocess.run(cmd, shell=True, cwd=cwd, stdout=subprocess.PIPE, stderr=subprocess.STDOUT, text=True, timeout=timeout)
@@ -40,18 +43,29 @@ def confirm(mid):
 
 def detect(mid, props):
     d = os.path.join(SRC, mid)
-    assert sh("git -C /repo status --porcelain")[1].strip() == "", "/repo not clean"
-    rc, out = sh("git -C /repo apply %s" % os.path.join(d, "patch.diff"))
+    if WORKER:
+        # parallel mode: the patched tree is this worker's scratch worktree; /repo is not touched
+        sh("git checkout -q -- . && git clean -fdq tests", cwd=WT)
+        rc, out = sh("git apply %s" % os.path.join(d, "patch.diff"), cwd=WT)
+        env = "VERIF_REPO=%s VERIF_BUILD_TAG=_%s VERIF_SKIP_PROOFS=1 VERIF_EVIDENCE_DIR=/tmp/seed_ev_%s VERIF_REPLAY_DIR=/tmp/seed_rp_%s " % (WT, WORKER, WORKER, WORKER)
+    else:
+        assert sh("git -C /repo status --porcelain")[1].strip() == "", "/repo not clean"
+        rc, out = sh("git -C /repo apply %s" % os.path.join(d, "patch.diff"))
+        env = ""
     res = {}
     try:
         for p in props:
             t = time.time()
-            rc, out = sh("./check %s --tier quick" % p, cwd="/verif", timeout=2400)
+            rc, out = sh(env + "./check %s --tier quick" % p, cwd="/verif", timeout=2400)
             v = [l for l in out.split("\n") if l.startswith("VIOLATION")]
             detail = [l.strip() for l in out.split("\n") if l.startswith("  ")][:3]
             res[p] = {"exit": rc, "violations": v[:3], "first_messages": detail, "wall_s": round(time.time() - t)}
     finally:
-        sh("git -C /repo checkout -- .")
+        if WORKER:
+            sh("git checkout -q -- .", cwd=WT)
+        else:
+            sh("git -C /repo checkout -- .")
+    res["_mode"] = ("scratch worktree %s via VERIF_REPO (parallel evaluation; /repo untouched)" % WT) if WORKER else "git -C /repo apply; ./check; git -C /repo checkout -- ."
     return res
 
 def main():
@@ -77,10 +91,12 @@ def main():
         meta2 = {"id": mid, "breaks_property": prop, "summary": meta.get("summary"), "needs_to_manifest": meta.get("needs"),
                  "author_ran": meta.get("ran"), "confirmed_by_me": conf, "kept": bool(ok), "detection_quick": det}
         json.dump(meta2, open(os.path.join(o, "meta.json"), "w"), indent=1)
-        caught = any(v["exit"] != 0 and v["violations"] for v in det.values())
-        print(mid, "confirmed" if ok else "NOT-CONFIRMED %s" % conf, "| caught" if caught else "| MISSED", {p: (v["exit"], v["violations"][:1], v["first_messages"][:1]) for p, v in det.items()}, flush=True)
-    sh("git -C /repo checkout -- .")
-    os.system("rm -rf /verif/replays/*")
+        dd = {p: v for p, v in det.items() if not p.startswith("_")}
+        caught = any(v["exit"] != 0 and v["violations"] for v in dd.values())
+        print(mid, "confirmed" if ok else "NOT-CONFIRMED %s" % conf, "| caught" if caught else "| MISSED", {p: (v["exit"], v["first_messages"][:1]) for p, v in dd.items()}, flush=True)
+    if not WORKER:
+        sh("git -C /repo checkout -- .")
+        os.system("rm -rf /verif/replays/*")
 
 if __name__ == "__main__":
     main()
